@@ -307,6 +307,9 @@ func lemmaTickMonotone(intervalStart uint64, intervalsPerDay uint32, t1, t2 uint
 //@ assumepre catalog.Directory.AddTimeBucket.schema "observation outside C16: item/category count mismatch is not checked"
 //@ assumepre executor.Writer.WriteRecords.tbi "the bucket description comes from the catalog (loaded, and its path names its year file)"
 //@ loop 0 invariant #queued: queuedCmds >= old(queuedCmds)
+// a bucket's rows are handed on (the iteration completes) only if the schema comparison reported no column missing by name
+// and did not fail; the comparison itself (set algebra over interface{} sets, reflect) is not under contract.
+//@ loop 0 step #acceptedOnlyIfNoColumnMissing [C14]: ret_GetMissingAndTypeCoercionColumns_0 == nil && ret_GetMissingAndTypeCoercionColumns_2 == nil
 //@ loop 1 invariant true
 
 // ---------------------------------------------------------------------------------------------
